@@ -18,7 +18,8 @@ Inductive op :=
 | OSet (k : kind) (t : nat) (h : option nat)        (* set_{str,mem}_constraint_handler_s(h or NULL) *)
 | OThrdSet (k : kind) (t : nat) (h : option nat)    (* thrd_set_{str,mem}_constraint_handler_s *)
 | OViolate (k : kind) (t : nat)                     (* a runtime-constraint violation of that kind on thread t *)
-| OSpawn (parent child : nat).                      (* thread creation: the child starts with fresh thread-locals *)
+| OSpawn (parent child : nat)                       (* thread creation: the child starts with fresh thread-locals *)
+| OCall (t : nat).                                  (* any other library call on thread t (successful, or a query): no effect on the registrations *)
 Inductive out := ORet (s : slot) | ORan (r : ran) | ONone.
 
 (* ---------------- the implementation model ---------------- *)
@@ -44,6 +45,7 @@ Definition step (s : hstate) (o : op) : hstate * out :=
                 | v => run_slot v RDef
                 end))
   | OSpawn _ c => (mkH (glob s) (fun k' t' => if Nat.eqb t' c then SNull else thrd s k' t'), ONone)
+  | OCall _ => (s, ONone)
   end.
 
 Fixpoint run_hist (s : hstate) (l : list op) : list out :=
@@ -92,6 +94,7 @@ Definition spec_out (past : list op) (o : op) : out :=
   | OThrdSet k t _ => ORet (as_slot (last_thrd k t past))
   | OViolate k t => ORan (dispatch_spec k t past)
   | OSpawn _ _ => ONone
+  | OCall _ => ONone
   end.
 Fixpoint spec_hist (past : list op) (l : list op) : list out :=
   match l with [] => [] | o :: l' => spec_out past o :: spec_hist (past ++ [o]) l' end.
